@@ -78,3 +78,8 @@ claim('C18', 'exploration',
       'Trusted: pysam VariantFile / tabix. Positions >= 0; one configuration per cache directory; multi-base sites only soundness + mode agreement.',
       'model-based property-based testing (Hypothesis operation sequences): differential between loading modes + reference reading of the VCF',
       'DESIGN.md section 4, C18')
+claim('C15', 'exploration',
+      'Hypothesis-generated NlaIII / scCHIC molecules on random references (gapped coverage below and above max_N_span, reverse strand, single fragments, indels, soft clips, conflicting bases at equal / unequal qualities) through deduplicate_majority(max_N_span) and write_pysam(consensus=True), and simulated libraries through bamtagmultiome --consensus --multiprocess with a reference FASTA; every consensus record is checked with a validity predicate (blocks = coverage, length agreement, reference reconstructed from sequence+CIGAR+MD by an independent MD parser, decidable base calls, gap limit, SM/RX/DS/TF tags).',
+      'Base calls asserted only where every observation has phred >= 20 and the evidence is decidable without an error model. Trusted: pysam record construction, FastaFile.',
+      'property-based testing (Hypothesis) with a validity-predicate oracle (many correct outputs) and an independent MD parser',
+      'DESIGN.md section 4, C15')
